@@ -459,14 +459,23 @@ class PSBaseParser:
         elif c in ESC_STRING:
             self._curtoken += bytes((ESC_STRING[c],))
 
-        elif c == b"\r" and len(s) > i + 1 and s[i + 1 : i + 2] == b"\n":
-            # If current and next character is \r\n skip both because enters
-            # after a \ are ignored
-            i += 1
+        elif c == b"\r":
+            # A backslash followed by \r or \r\n is a line continuation: skip
+            # both. The \n may only arrive with the next buffer, so it is
+            # handled by a scanner state of its own.
+            self._parse1 = self._parse_string_2
+            return i + 1
 
         # default action
         self._parse1 = self._parse_string
         return i + 1
+
+    def _parse_string_2(self, s: bytes, i: int) -> int:
+        """Skip the LF of a backslash-CR-LF line continuation."""
+        self._parse1 = self._parse_string
+        if s[i : i + 1] == b"\n":
+            return i + 1
+        return i
 
     def _parse_wopen(self, s: bytes, i: int) -> int:
         c = s[i : i + 1]
